@@ -352,7 +352,6 @@ pub fn run(ws: &[&str]) -> String {
                 .header(http::header::SERVER, "srv/1.0")
                 .header(http::header::VARY, "Accept-Encoding")
                 .header(http::header::SET_COOKIE, "sid=1; HttpOnly")
-                .header(http::header::WWW_AUTHENTICATE, "Basic realm=\"x\"")
                 .header(
                     http::header::WWW_AUTHENTICATE,
                     if (body.len() + status as usize) % 2 == 0 {
@@ -361,6 +360,7 @@ pub fn run(ws: &[&str]) -> String {
                         http::HeaderValue::from_bytes(b"Bearer realm=\"Schl\xfcsselverwaltung\", error=\"insufficient_scope\"").unwrap()
                     },
                 )
+                .header(http::header::WWW_AUTHENTICATE, "Basic realm=\"x\"")
                 .header(http::header::LOCATION, "https://elsewhere.example/moved?x=1")
                 .header(http::header::RETRY_AFTER, "120")
                 .header(http::header::CONTENT_LANGUAGE, "en")
